@@ -174,10 +174,16 @@ def run(tier):
     ck.sample({"kind": "recorded life cycle excerpt",
                "events": [{k: v for k, v in r.items() if k in ("e", "p", "k", "status", "evals", "nBefore", "nAfter", "live")} for r in ex]})
     ck.sample({"kind": "history", "ops": jobs[0]["ops"], "planner": jobs[0]["planner"]})
+    # control planners: same life-cycle model, solutions judged by the control path contract
+    import c03_control
+    c03_control.control_lifecycle(ck, tier, graph=(g, out))
     return ck.finish()
 
 
 def replay(path):
+    if os.path.basename(path).startswith("ctrl-"):
+        import c03_control
+        return c03_control.replay_control(path)
     d = json.load(open(path))
     job = d["job"]
     binary = build_harness("planners", needs_lib=True)
